@@ -864,7 +864,7 @@ class Array(Type):
     def _check_bounds(self, idx):
         if not isinstance(idx, int_types):
             raise ValueError("index must be an int or a long")
-        if idx < 0 or (self.is_sized() and idx >= self.size):
+        if idx < 0 or (self.is_sized() and idx >= self.array_len):
             raise IndexError("Index %s out of bounds" % idx)
 
     def _get_pinned_base_class(self):
